@@ -89,7 +89,7 @@ class Gen(object):
         """a small rule set: used for items / keysrules / valuesrules / *of definitions"""
         return self.rules(depth, [], SUBFIELDS, small=True)
 
-    def rules(self, depth, siblings, pool, small=False, in_of=False, kind=None):
+    def rules(self, depth, siblings, pool, small=False, in_of=False, kind=None, key_rules=False):
         r = self.r
         rules = {}
         kinds = ['integer', 'number', 'float', 'string', 'boolean', 'list_items', 'list_schema',
@@ -172,7 +172,7 @@ class Gen(object):
         if ckind == 'dict_kv':
             if r.random() < 0.6:
                 rules['keysrules'] = self.rules(depth - 1, [], SUBFIELDS, small=True,
-                                                kind=r.choice(['string', 'integer', 'any']))
+                                                kind=r.choice(['string', 'integer', 'any']), key_rules=True)
             if r.random() < 0.6:
                 rules['valuesrules'] = self.simple_rules(depth - 1)
             if r.random() < p * 0.5:
@@ -204,7 +204,7 @@ class Gen(object):
             rules[op] = [self.rules(depth - 1, siblings, pool, small=True, in_of=True)
                          for _ in range(r.randrange(0, 4))]
         if self.norm and not in_of:
-            self.add_normalization(rules, depth, siblings, small)
+            self.add_normalization(rules, depth, siblings, small, key_rules)
         return rules
 
     def dependencies(self, siblings):
@@ -230,8 +230,41 @@ class Gen(object):
         return {name(): r.choice([1, 'a', [1, 2], ['a', 'b'], None, [None, 1], True, []])
                 for _ in range(r.randrange(1, 3))}
 
-    def add_normalization(self, rules, depth, siblings, small):
-        pass  # filled in by gen_norm (normalization generator) -- see harness/gen_norm.py
+    def callable_or_name(self, table, names):
+        n = self.r.choice(names)
+        return n if self.r.random() < 0.5 else table(n)
+
+    def coercer(self, names=('to_int', 'to_str', 'inc', 'wrap', 'ident', 'none', 'fail', 'keyfail', 'first', 'prefix_x')):
+        import pool
+        r = self.r
+        if r.random() < 0.3:
+            return [self.callable_or_name(lambda n: pool.COERCERS[n], names) for _ in range(r.randrange(1, 4))]
+        return self.callable_or_name(lambda n: pool.COERCERS[n], names)
+
+    def add_normalization(self, rules, depth, siblings, small, key_rules=False):
+        import pool
+        r = self.r
+        t = rules.get('type')
+        if r.random() < 0.16:
+            if r.random() < 0.75:
+                rules['default'] = self.value_for({k: v for k, v in rules.items() if k in ('type', 'min', 'max', 'allowed', 'schema', 'items')}, 1, 0.8)
+            else:
+                letters = [s for s in siblings if isinstance(s, str) and len(s) == 1] or ['a']
+                n = r.choice(['const5'] + ['%s_%s' % (k, ''.join(r.sample(letters, r.randrange(0, min(3, len(letters)) + 1))))
+                                           for k in ('rd', 'rd', 'rd', 'rdx', 'rdk')])
+                if n not in pool.SETTER_NAMES:
+                    n = 'const5'
+                rules['default_setter'] = n if r.random() < 0.5 else pool.setter(n)
+        if r.random() < 0.2:
+            rules['coerce'] = self.coercer(('to_int', 'to_str', 'prefix_x', 'ident', 'fail', 'keyfail')) if key_rules else self.coercer()
+        if not key_rules and not small and r.random() < 0.07:
+            rules['rename'] = r.choice(['n1', 'n2', 7] + [s for s in siblings][:2])
+        if not key_rules and not small and r.random() < 0.06:
+            rules['rename_handler'] = self.coercer(('prefix_x', 'to_str', 'to_int', 'ident', 'fail'))
+        if rules.get('type') == 'dict' and 'schema' in rules and r.random() < 0.25:
+            rules['purge_unknown'] = r.choice([True, False])
+        if r.random() < 0.08:
+            rules['readonly'] = True
 
     # ------------------------------------------------------------ configuration
     def config(self):
@@ -246,6 +279,11 @@ class Gen(object):
             cfg['require_all'] = True
         if r.random() < 0.25:
             cfg['ignore_none_values'] = True
+        if self.norm:
+            if r.random() < 0.3:
+                cfg['purge_unknown'] = True
+            if r.random() < 0.2:
+                cfg['purge_readonly'] = True
         return cfg
 
     # ------------------------------------------------------------ documents
